@@ -22,7 +22,8 @@ import (
 // C04: diff.DiffTables / findOverlappingBlocks vs model (coq/model/Diff.v) and vs an
 // independent map-based oracle.
 //
-// case kind 0:  (0 emitUnchanged T1 T2)   T = (pknames columns rows), pknames/columns = lists of
+// case kind 0:  (0 flags T1 T2)   flags bit0 = emitUnchanged, bit1 = both tables in one object store;
+//               T = (pknames columns rows), pknames/columns = lists of
 //               byte strings, rows = ((key rowid) ...) sorted by key, key = list of byte strings.
 //     The harness turns a row into CSV cells: the j-th pk column gets key[j] (keyless table:
 //     column i gets key[i]), the first non-pk column gets the decimal rowid, further non-pk
@@ -124,6 +125,15 @@ func c04Build(t *c04Table, text string) *c04Built {
 	if b, ok := c04Cache[text]; ok {
 		return b
 	}
+	b := c04BuildInto(objmock.NewStore(), t)
+	if len(c04Cache) > 64 {
+		c04Cache = map[string]*c04Built{}
+	}
+	c04Cache[text] = b
+	return b
+}
+
+func c04CSVBytes(t *c04Table) []byte {
 	buf := &bytes.Buffer{}
 	w := csv.NewWriter(buf)
 	if err := w.Write(t.Cols); err != nil {
@@ -136,12 +146,15 @@ func c04Build(t *c04Table, text string) *c04Built {
 		}
 	}
 	w.Flush()
-	db := objmock.NewStore()
+	return buf.Bytes()
+}
+
+func c04BuildInto(db *objmock.Store, t *c04Table) *c04Built {
 	s, err := sorter.NewSorter()
 	if err != nil {
 		panic(err)
 	}
-	sum, err := ingest.IngestTable(db, s, io.NopCloser(bytes.NewReader(buf.Bytes())), t.PK, logr.Discard())
+	sum, err := ingest.IngestTable(db, s, io.NopCloser(bytes.NewReader(c04CSVBytes(t))), t.PK, logr.Discard())
 	if err != nil {
 		panic(fmt.Sprintf("ingest: %v", err))
 	}
@@ -165,16 +178,12 @@ func c04Build(t *c04Table, text string) *c04Built {
 			b.byPK[c04Hash(enc, r.Key)] = i
 		}
 	}
-	if len(c04Cache) > 64 {
-		c04Cache = map[string]*c04Built{}
-	}
-	c04Cache[text] = b
 	return b
 }
 
-// rowAt reads the row addressed by off from the stored table (RowToBlockAndOffset + GetBlock).
+// rowAt reads the row addressed by off from the stored table (block off/255, row off%255).
 func (b *c04Built) rowAt(off uint32) ([]string, bool) {
-	blk, ro := diff.RowToBlockAndOffset(off)
+	blk, ro := off/255, off%255 // independent of diff.RowToBlockAndOffset
 	if int(blk) >= len(b.tbl.Blocks) {
 		return nil, false
 	}
@@ -225,14 +234,29 @@ func c04Z(z int) *xt.T {
 }
 
 func runC04(ctx *Ctx, c *xt.T) (*xt.T, Verdict) {
-	if c.Kids[0].N == 1 {
+	switch c.Kids[0].N {
+	case 1:
 		return runC04Windows(c)
+	case 2:
+		return runC04CLI(ctx, c)
+	case 3:
+		return runC04Readers(c)
 	}
-	emitUnchanged := c.Kids[1].N != 0
+	emitUnchanged := c.Kids[1].N&1 != 0
+	shared := c.Kids[1].N&2 != 0
 	t1 := c04ParseTable(c.Kids[2])
 	t2 := c04ParseTable(c.Kids[3])
-	b1 := c04Build(t1, c.Kids[2].String())
-	b2 := c04Build(t2, c.Kids[3].String())
+	var b1, b2 *c04Built
+	if shared {
+		// both tables in ONE object store (diff of two commits of a repository); otherwise each
+		// table lives in its own store (diff against a fetched table / an in-memory file commit)
+		db := objmock.NewStore()
+		b1 = c04BuildInto(db, t1)
+		b2 = c04BuildInto(db, t2)
+	} else {
+		b1 = c04Build(t1, c.Kids[2].String())
+		b2 = c04Build(t2, c.Kids[3].String())
+	}
 	v := OK()
 	bad := func(class, format string, a ...interface{}) {
 		if v.OK {
@@ -262,11 +286,8 @@ func runC04(ctx *Ctx, c *xt.T) (*xt.T, Verdict) {
 	default:
 	}
 
-	type ev struct {
-		kind, pos1, pos2 int
-	}
 	events := xt.N()
-	var got []ev
+	var got []c04Ev
 	keyOf := func(pk []byte) ([]string, int, int) {
 		p1, ok1 := b1.byPK[string(pk)]
 		p2, ok2 := b2.byPK[string(pk)]
@@ -321,20 +342,31 @@ func runC04(ctx *Ctx, c *xt.T) (*xt.T, Verdict) {
 		switch {
 		case p1 >= 0 && p2 >= 0:
 			events.Add(xt.N(xt.LI(1), xt.Strs(key), xt.LI(t1.Rows[p1].RowID), xt.L(uint64(d.Offset)), xt.LI(t2.Rows[p2].RowID), xt.L(uint64(d.OldOffset))))
-			got = append(got, ev{1, p1, p2})
+			got = append(got, c04Ev{1, p1, p2})
 		case p1 >= 0:
 			events.Add(xt.N(xt.LI(0), xt.Strs(key), xt.LI(t1.Rows[p1].RowID), xt.L(uint64(d.Offset))))
-			got = append(got, ev{0, p1, -1})
+			got = append(got, c04Ev{0, p1, -1})
 		case p2 >= 0:
 			events.Add(xt.N(xt.LI(2), xt.Strs(key), xt.LI(t2.Rows[p2].RowID), xt.L(uint64(d.OldOffset))))
-			got = append(got, ev{2, -1, p2})
+			got = append(got, c04Ev{2, -1, p2})
 		default:
 			bad("empty-event", "event for key %q has neither Sum nor OldSum", key)
 			events.Add(xt.N(xt.LI(9)))
 		}
 	}
 
-	// oracle: two maps key -> row, independent of the block structure
+	c04Judge(t1, t2, emitUnchanged, got, c.Kids[2].String() == c.Kids[3].String(), bad)
+	return xt.N(xt.LI(0), events), v
+}
+
+// c04Ev is one reported event: kind 0 added / 1 modified / 2 removed, with the positions of the
+// rows in the case tables (-1 = none).
+type c04Ev struct {
+	kind, pos1, pos2 int
+}
+
+// c04Judge is the oracle: two maps key -> row, independent of blocks, windows and offsets.
+func c04Judge(t1, t2 *c04Table, emitUnchanged bool, got []c04Ev, sameTable bool, bad func(class, format string, a ...interface{})) {
 	pkEqual := c04StrsEq(t1.PK, t2.PK)
 	colsEqual := c04StrsEq(t1.Cols, t2.Cols)
 	if pkEqual && (len(t1.PK) > 0 || colsEqual) {
@@ -347,20 +379,20 @@ func runC04(ctx *Ctx, c *xt.T) (*xt.T, Verdict) {
 		for i, r := range t2.Rows {
 			m2[kstr(r.Key)] = i
 		}
-		want := map[string]ev{}
+		want := map[string]c04Ev{}
 		for k, i := range m1 {
 			if j, ok := m2[k]; ok {
 				same := colsEqual && c04StrsEq(c04Cells(t1, t1.Rows[i]), c04Cells(t2, t2.Rows[j]))
 				if !same || emitUnchanged {
-					want[k] = ev{1, i, j}
+					want[k] = c04Ev{1, i, j}
 				}
 			} else {
-				want[k] = ev{0, i, -1}
+				want[k] = c04Ev{0, i, -1}
 			}
 		}
 		for k, j := range m2 {
 			if _, ok := m1[k]; !ok {
-				want[k] = ev{2, -1, j}
+				want[k] = c04Ev{2, -1, j}
 			}
 		}
 		seen := map[string]bool{}
@@ -394,11 +426,10 @@ func runC04(ctx *Ctx, c *xt.T) (*xt.T, Verdict) {
 			sort.Strings(missing)
 			bad("missed-"+kindName[want[missing[0]].kind], "%d expected events not reported, first: key %s (%s)", len(missing), missing[0], kindName[want[missing[0]].kind])
 		}
-		if len(t1.Rows) > 0 && c.Kids[2].String() == c.Kids[3].String() && !emitUnchanged && len(got) > 0 {
+		if len(t1.Rows) > 0 && sameTable && !emitUnchanged && len(got) > 0 {
 			bad("self-diff-nonempty", "diff of a table against itself yields %d events", len(got))
 		}
 	}
-	return xt.N(xt.LI(0), events), v
 }
 
 func runC04Windows(c *xt.T) (*xt.T, Verdict) {
@@ -515,9 +546,17 @@ func genC04(ctx *Ctx) []Case {
 			ctx.Count("one_side_empty")
 		}
 	}
+	byTag := map[string][][2]*c04Table{}
 	add := func(tag string, eu bool, t1, t2 *c04Table) {
 		count(t1, t2)
+		byTag[tag] = append(byTag[tag], [2]*c04Table{t1, t2})
 		cases = append(cases, c04DiffCase(tag, eu, t1, t2))
+	}
+	// other case kinds / flags over the same table pairs
+	addK := func(tag string, kind, field int, t1, t2 *c04Table) {
+		ctx.Count(fmt.Sprintf("kind%d_field%d", kind, field))
+		cases = append(cases, Case{Tag: tag, Nontrivial: len(t1.Rows)+len(t2.Rows) > 0,
+			C: xt.N(xt.LI(kind), xt.LI(field), c04TableTree(t1), c04TableTree(t2))})
 	}
 
 	// --- fixed witnesses: the defect fixed by 7a1623b (non-empty vs empty), both directions
@@ -745,6 +784,100 @@ func genC04(ctx *Ctx) []Case {
 			t1, t2 = t2, t1
 		}
 		add("rand", ctx.Pick(8) == 0, t1, t2)
+	}
+
+	// --- options and stores: emitUnchanged on (as merge uses it), both tables in one object store
+	//     (kind 0 otherwise keeps each table in its own store, as when diffing a fetched table)
+	for _, pr := range byTag["exh"] {
+		addK("emit-unchanged", 0, 1, pr[0], pr[1])
+	}
+	for i, pr := range byTag["blocks"] {
+		if i%5 == 0 || ctx.Thorough() {
+			addK("emit-unchanged", 0, 1, pr[0], pr[1])
+		}
+		if i%6 == 1 || ctx.Thorough() {
+			addK("one-store", 0, 2, pr[0], pr[1])
+		}
+	}
+	for i, pr := range byTag["edges"] {
+		addK("one-store", 0, 2+i%2, pr[0], pr[1])
+	}
+	for i, pr := range byTag["exh"] {
+		if i%3 == 0 {
+			addK("one-store", 0, 2, pr[0], pr[1])
+		}
+	}
+
+	// --- the consumers of the interactive diff: RowListReader / RowChangeReader / TableReader
+	for _, tag := range []string{"edges", "keyless", "columns", "composite", "blocks", "rand"} {
+		for i, pr := range byTag[tag] {
+			if (tag == "blocks" || tag == "composite") && i%3 != 0 && !ctx.Thorough() {
+				continue
+			}
+			addK("readers", 3, i%2, pr[0], pr[1])
+		}
+	}
+
+	// --- wrgl diff --no-gui in-process: two branches (0), file vs branch (1), branch vs file (2)
+	{
+		smallA := small[5]  // p (rowid 1), q (rowid 0)
+		smallB := small[15] // q (rowid 1), r (rowid 0)
+		n := 600
+		base := c04IntTable(c04Range(0, 2*n, 2), 0)
+		var ints []int
+		for i := 0; i < n; i++ {
+			if i != 255 {
+				ints = append(ints, 2*i)
+			}
+		}
+		ints = append(ints, 2*256+1, 2*509+1)
+		edited := c04IntTable(ints, 0)
+		edited.Rows[254].RowID += 7
+		edited.Rows[509].RowID += 7
+		kl1 := keyless(c04Range(0, 300, 1), []string{"a", "b"})
+		kl2 := keyless(c04Range(100, 420, 1), []string{"a", "b"})
+		cp1 := comp(300, 2, 0, layouts[1][0], layouts[1][1])
+		cp2 := comp(600, 3, 0, layouts[1][0], layouts[1][1])
+		cli := []struct {
+			mode   int
+			t1, t2 *c04Table
+		}{
+			{0, smallA, smallB}, {1, smallA, smallB}, {2, smallB, smallA},
+			{0, edited, base}, {1, base, edited}, {2, edited, base},
+			{0, cp1, cp2}, {1, cp2, cp1},
+			{0, kl1, kl2}, {1, kl2, kl1},
+			{0, big[8], wide(big[7])}, {2, wide(big[8]), big[5]},
+			{0, big[10], big[11]},
+			{0, big[3], empty}, {1, empty, big[3]},
+			{0, big[8], otherPK(big[7])},
+		}
+		if ctx.Thorough() {
+			for i, pr := range byTag["edges"] {
+				cli = append(cli, struct {
+					mode   int
+					t1, t2 *c04Table
+				}{i % 3, pr[0], pr[1]})
+			}
+			for i, pr := range byTag["rand"] {
+				if i < 60 {
+					cli = append(cli, struct {
+						mode   int
+						t1, t2 *c04Table
+					}{i % 3, pr[0], pr[1]})
+				}
+			}
+			for i, pr := range byTag["composite"] {
+				if i%4 == 0 {
+					cli = append(cli, struct {
+						mode   int
+						t1, t2 *c04Table
+					}{i % 3, pr[0], pr[1]})
+				}
+			}
+		}
+		for _, x := range cli {
+			addK("cli", 2, x.mode, x.t1, x.t2)
+		}
 	}
 
 	// --- findOverlappingBlocks directly: all pairs of strictly increasing first-key vectors of
